@@ -33,6 +33,10 @@ func (fc *FnCtx) header() string {
 		b.WriteString(d)
 		b.WriteString("\n")
 	}
+	for _, d := range fc.q.recDefs {
+		b.WriteString(d)
+		b.WriteString("\n")
+	}
 	return b.String()
 }
 
